@@ -13,3 +13,4 @@ import PPProofs.Props.C20Links
 #print axioms PP.Diagram.root_not_first_witness
 #print axioms PP.Diagram.named_cycle_ok
 #print axioms PP.Diagram.links_resolve_partial
+#print axioms PP.Diagram.root_first_partial
